@@ -636,7 +636,7 @@ func genWorkload() *rapid.Generator[Workload] {
 	return rapid.Custom(func(t *rapid.T) Workload {
 		w := Workload{Prefix: rapid.SampledFrom([]string{"", "pfx"}).Draw(t, "prefix"), Kind: rapid.SampledFrom([]string{"typed", "map", "binary"}).Draw(t, "kind")}
 		w.Indexes = rapid.SampledFrom([][]string{{"ia"}, {"ia", "in"}}).Draw(t, "indexes")
-		ids := []string{"1", "2", "3", "k"}
+		ids := []string{"1", "2", "px", "k", "f1"} // some ids start with characters of the prefix "pfx."
 		as := []string{"a", "b", "ab", ""}
 		ns := rapid.IntRange(0, 3).Draw(t, "nseeds")
 		seen := map[string]bool{}
